@@ -28,7 +28,9 @@ F(i, p, nm, cont, zip, isz) == [id |-> i, parent |-> p, kind |-> "file", name |-
 D(i, p, nm) == [id |-> i, parent |-> p, kind |-> "dir", name |-> nm, content |-> <<>>, zip |-> NoZip, iszip |-> FALSE, truncate |-> -1, flip |-> 0, hasflip |-> FALSE]
 WArc == [nodes |-> << F(1, 0, "a.txt", Run(120, 5), NoZip, FALSE), D(2, 0, "sub"), F(3, 2, "z1.zip", <<>>, Z1, TRUE), F(4, 0, "top.jar", <<>>, Z2, TRUE),
                       F(5, 0, "not.zipx", <<>>, Z2, FALSE), F(6, 0, "fake.zip", Run(80, 40), NoZip, FALSE), F(7, 2, "w.war", <<>>, Z3, TRUE),
-                      F(8, 2, "e.ear", <<>>, Z2, TRUE), F(9, 0, "empty.zip", <<>>, NoZip, TRUE), F(10, 2, "big.bin", Run(0, 3000), NoZip, FALSE) >>]
+                      F(8, 2, "e.ear", <<>>, Z2, TRUE), F(9, 0, "empty.zip", <<>>, NoZip, TRUE), F(10, 2, "big.bin", Run(0, 3000), NoZip, FALSE),
+                      \* a directory whose name looks like an archive, with an ordinary file and a real archive inside
+                      D(11, 0, "bk.zip"), F(12, 11, "inside.txt", Run(120, 2), NoZip, FALSE), F(13, 11, "n.jar", <<>>, Z3, TRUE) >>]
 (* (WArc node 9: an archive with no member; node 5: archive content under a name that is not configured; node 6: not an archive) *)
 ZC == << M("c1", 33188, <<2017, 5, 1, 1, 1, 2>>, "stored", Run(99, 4), FALSE), M("c2.txt", 33188, <<2017, 5, 1, 1, 1, 2>>, "deflated", Run(99, 300), FALSE),
          M("d/", 16877, <<2017, 5, 1, 1, 1, 2>>, "stored", <<>>, TRUE) >>
@@ -39,8 +41,10 @@ WCorrupt(t, fl, hf) == [nodes |-> << F(1, 0, "a.txt", Run(120, 5), NoZip, FALSE)
 Clocks == <<1493640000, 1490918400, 1462017600>>      \* 2017-05-01 12:00, 2017-03-31 00:00, 2016-04-30 12:00 (UTC)
 QVariants == { [wh |-> w, ord |-> o, lim |-> k] : w \in BOOLEAN, o \in {"none", "size-", "size+"}, k \in {0, 1, 2, 3, 5, 8, 13, 17, 30} }
 
-Init == kind = "" /\ variant = [wh |-> FALSE, ord |-> "none", lim |-> 0, t |-> -1, flip |-> 0, clock |-> 0] /\ phase = "start"
-ChooseMembers == /\ phase = "start" /\ kind' = "members" /\ \E c \in 1 .. 3 : variant' = [variant EXCEPT !.clock = Clocks[c]] /\ phase' = "done"
+Init == kind = "" /\ variant = [wh |-> FALSE, ord |-> "none", lim |-> 0, t |-> -1, flip |-> 0, clock |-> 0, depth |-> 0] /\ phase = "start"
+(* depth: `depth N` on the root (0 = none): the members of an archive lying exactly at level N are still listed *)
+ChooseMembers == /\ phase = "start" /\ kind' = "members"
+                 /\ \E c \in 1 .. 3, d \in 0 .. 2 : (c = 1 \/ d = 0) /\ variant' = [variant EXCEPT !.clock = Clocks[c], !.depth = d] /\ phase' = "done"
 ChooseQuery == /\ phase = "start" /\ kind' = "query"
                /\ \E v \in QVariants : variant' = [variant EXCEPT !.wh = v.wh, !.ord = v.ord, !.lim = v.lim, !.clock = Clocks[1]]
                /\ phase' = "done"
@@ -57,12 +61,14 @@ Cols == "path, size, is_dir, mode, modified"
 QText(arc) == "select path, size from '.'" \o (IF arc THEN " archives" ELSE "") \o (IF variant.wh THEN " where size > 4" ELSE "")
               \o (CASE variant.ord = "none" -> "" [] variant.ord = "size-" -> " order by size desc" [] variant.ord = "size+" -> " order by size")
               \o (IF variant.lim > 0 THEN " limit " \o ToString(variant.lim) ELSE "") \o " into list"
+DepthText == IF variant.depth > 0 THEN " depth " \o ToString(variant.depth) ELSE ""
 Scenario ==
   IF kind = "members" THEN
-     [prop |-> "C19", kind |-> kind, class |-> "members/clock" \o ToString(variant.clock), world |-> WArc, variant |-> variant,
+     [prop |-> "C19", kind |-> kind, class |-> "members/clock" \o ToString(variant.clock) \o (IF variant.depth > 0 THEN "/depth" \o ToString(variant.depth) ELSE ""),
+      world |-> WArc, variant |-> variant,
       env |-> [tz |-> "UTC", cwd |-> 0, fake_epoch |-> variant.clock],
-      runs |-> << [tag |-> "arc", ncols |-> 5, chars |-> FALSE, argv |-> << "select " \o Cols \o " from '.' archives into list" >>],
-                  [tag |-> "plain", ncols |-> 5, chars |-> FALSE, argv |-> << "select " \o Cols \o " from '.' into list" >>] >>]
+      runs |-> << [tag |-> "arc", ncols |-> 5, chars |-> FALSE, argv |-> << "select " \o Cols \o " from '.'" \o DepthText \o " archives into list" >>],
+                  [tag |-> "plain", ncols |-> 5, chars |-> FALSE, argv |-> << "select " \o Cols \o " from '.'" \o DepthText \o " into list" >>] >>]
   ELSE IF kind = "query" THEN
      [prop |-> "C19", kind |-> kind, class |-> "query/" \o variant.ord \o (IF variant.wh THEN "/where" ELSE "") \o (IF variant.lim > 0 THEN "/limit" ELSE ""),
       world |-> WArc, variant |-> variant, env |-> [tz |-> "UTC", cwd |-> 0, fake_epoch |-> variant.clock],
